@@ -111,6 +111,9 @@ func genC30(r *simkit.Rand, tier string) *simkit.Plan {
 	prepareP := []float64{0, 0.3, 0.8}[r.Intn(3)]
 	stuckDeltas := []int64{0, 1, 1, 1, 2, 3, 4, 5, 6}
 	followPutEpoch := r.Chance(0.85)
+	// some runs aim at the removal clause under a stuck-shard extension: a key is written into the oldest active epoch,
+	// the next epoch change keeps (or re-opens) that epoch beyond the configured window, then Remove / ClearCache / read
+	extBurst := r.Chance(0.35)
 
 	key := func() string { return fmt.Sprintf("k%d", r.Intn(nKeys)) }
 	relEpoch := func() int64 { // distance below the current epoch; negative = future epoch
@@ -180,9 +183,33 @@ func genC30(r *simkit.Rand, tier string) *simkit.Plan {
 				st.T = 0
 			}
 		}
+		burstKey := ""
+		if op == "ChangeEpoch" && extBurst && r.Chance(0.6) {
+			burstKey = key()
+			if r.Chance(0.7) {
+				p.Steps = append(p.Steps, simkit.Step{Op: "PutInEpoch", S: []string{burstKey}, B: []simkit.HexBytes{[]byte(fmt.Sprintf("b%d", i))}, I: []int64{int64(nap - 1)}})
+			}
+			if r.Chance(0.5) {
+				st.I[0] = 1 // meta header names the stuck epoch itself
+			} else {
+				st.I[1] = 1 // prepare header names it
+			}
+			st.I[2] = int64(nap + r.Intn(3))
+		}
 		p.Steps = append(p.Steps, st)
 		if (op == "ChangeEpoch") && followPutEpoch {
 			p.Steps = append(p.Steps, simkit.Step{Op: "SetEpochForPut", I: []int64{0}})
+		}
+		if burstKey != "" {
+			p.Steps = append(p.Steps, simkit.Step{Op: "Remove", S: []string{burstKey}})
+			if r.Chance(0.8) {
+				p.Steps = append(p.Steps, simkit.Step{Op: "ClearCache"})
+			}
+			rd := simkit.Step{Op: []string{"Has", "SearchFirst", "Get", "GetFromEpoch"}[r.Intn(4)], S: []string{burstKey}}
+			if rd.Op == "GetFromEpoch" {
+				rd.I = []int64{int64(nap)}
+			}
+			p.Steps = append(p.Steps, rd)
 		}
 	}
 	return p
@@ -321,7 +348,16 @@ type storer interface {
 
 type removedState struct {
 	step   int
-	lo, hi uint32 // the epochs that were active when Remove returned nil
+	active map[uint32]bool // the epochs that were active (extension epochs included) when Remove returned nil
+}
+
+func (rs *removedState) list() []uint32 {
+	out := make([]uint32, 0, len(rs.active))
+	for e := range rs.active {
+		out = append(out, e)
+	}
+	sort.Slice(out, func(i, j int) bool { return out[i] < out[j] })
+	return out
 }
 
 type run struct {
@@ -343,6 +379,16 @@ type run struct {
 	removed  map[string]*removedState
 	bloomHas map[string]bool // keys successfully written since the last restart
 
+	// mirror of the storer's epoch bookkeeping for the plain PruningStorer with pruning on (exact there, see activeNow):
+	// the active list newest first (stuck-shard extension epochs included), the epochs that have a persister entry, and
+	// the oldest epoch named by the last prepare header (-1 = none yet)
+	mActive   []uint32
+	mMap      map[uint32]bool
+	mPrepare  int64
+	mirrorOK  bool
+	cleanOn   bool
+	lookupExt bool
+
 	closes, reopens int
 
 	epochChanges, checkedReads, earlierEpochReads, removeChecks int
@@ -361,6 +407,108 @@ func lowBound(cur, n uint32) uint32 {
 		return cur + 1 - n
 	}
 	return 0
+}
+
+// maxStuckEpochs mirrors maxNumEpochsToKeepIfAShardIsStuck.
+const maxStuckEpochs = 5
+
+// mirrorInit mirrors initPersistersInEpoch.
+func (r *run) mirrorInit(start uint32) {
+	r.mActive, r.mMap, r.mPrepare = nil, map[uint32]bool{}, -1
+	r.mirrorOK = r.prune && r.c.Plan.Knob("fh", 0) == 0
+	if !r.mirrorOK {
+		return
+	}
+	if r.lookupExt {
+		for e := uint32(0); e <= start; e++ {
+			r.mMap[e] = true
+		}
+	}
+	loKeep, loAct := lowBound(start, r.keep), lowBound(start, r.nap)
+	for e := int64(start); e >= int64(loKeep); e-- {
+		r.mMap[uint32(e)] = true
+		if uint32(e) >= loAct {
+			r.mActive = append(r.mActive, uint32(e))
+		}
+	}
+}
+
+// mirrorChange mirrors changeEpoch / extendSavedEpochsIfNeeded / extendActivePersisters / closePersisters of the plain
+// PruningStorer: isMeta = the epoch-start header is a meta block naming stuck as its oldest finalized shard epoch;
+// otherwise the last prepare header (if any) decides.
+func (r *run) mirrorChange(newE uint32, isMeta bool, stuck uint32) (extended bool) {
+	if !r.mirrorOK {
+		return false
+	}
+	if r.mMap[newE] { // changeEpochWithExisting
+		lo := lowBound(newE, r.nap)
+		act := []uint32{}
+		for e := int64(newE); e >= int64(lo); e-- {
+			if !r.mMap[uint32(e)] {
+				return false
+			}
+			act = append(act, uint32(e))
+		}
+		r.mActive = act
+		return false
+	}
+	r.mActive = append([]uint32{newE}, r.mActive...)
+	r.mMap[newE] = true
+	oldestToKeep := int64(-1)
+	if isMeta {
+		oldestToKeep = int64(stuck)
+	} else if r.mPrepare >= 0 {
+		oldestToKeep = r.mPrepare
+	}
+	if oldestToKeep >= 0 {
+		to := r.mActive[len(r.mActive)-1]
+		from := uint32(oldestToKeep)
+		if from <= to && newE-from < maxStuckEpochs {
+			var add []uint32
+			complete := true
+			for e := int64(to); e >= int64(from); e-- {
+				if !r.mMap[uint32(e)] {
+					complete = false
+					break
+				}
+				if uint32(e) < to {
+					add = append(add, uint32(e))
+				}
+			}
+			if complete {
+				r.mActive = append(r.mActive, add...)
+			}
+			return true // closing is skipped either way
+		}
+	}
+	// closePersisters
+	if int(r.nap) < len(r.mActive) {
+		r.mActive = r.mActive[:r.nap]
+		r.mMap[newE-r.nap] = true
+	}
+	if r.cleanOn && uint32(len(r.mMap)) > r.keep {
+		for idx := newE - r.keep; r.mMap[idx]; idx-- {
+			delete(r.mMap, idx)
+		}
+	}
+	return false
+}
+
+// activeNow returns the epochs that are active for the removal clause: the storer's whole active list including
+// stuck-shard extension epochs where the driver mirrors it exactly (plain PruningStorer, pruning on), otherwise the
+// numOfActivePersisters newest epochs (a subset of the real list, which keeps the clause sound).
+func (r *run) activeNow() map[uint32]bool {
+	out := map[uint32]bool{}
+	if r.mirrorOK {
+		for _, e := range r.mActive {
+			out[e] = true
+		}
+		return out
+	}
+	for e := r.minLo(); e <= r.cur(); e++ {
+		out[e] = true
+	}
+	return out
 }
 
 func (r *run) minLo() uint32 {
@@ -465,6 +613,7 @@ func (r *run) build(start uint32) error {
 	}
 	r.hdrEpoch, r.putEpoch = start, start
 	r.bloomHas = map[string]bool{}
+	r.mirrorInit(start)
 	return nil
 }
 
@@ -487,7 +636,7 @@ func (r *run) promise(e uint32, key string) {
 func (r *run) exemptSource(key string, rs *removedState) bool {
 	for _, p := range sortedKeys(r.files) {
 		f := r.files[p]
-		if f.epoch >= rs.lo && f.epoch <= rs.hi {
+		if rs.active[f.epoch] {
 			continue
 		}
 		if _, ok := f.disk.RawGet([]byte(key)); ok {
@@ -516,15 +665,15 @@ func (r *run) checkRead(op, key string, e uint32, val []byte, err error, faultFi
 		return
 	}
 	if rs := r.removed[key]; rs != nil {
-		applies := plain || (e >= rs.lo && e <= rs.hi && r.isOpen(e))
+		applies := plain || rs.active[e]
 		if applies {
 			r.removeChecks++
 			if ok {
 				if r.exemptSource(key, rs) {
 					c.Probe("read_after_remove_from_epoch_not_active_at_remove")
 				} else {
-					c.Violate("C30", "readable-after-remove", op, "%s(%s) returned %q after Remove(%s) succeeded at step %d (epochs %d..%d were active then; current epoch %d, active %d..%d); no other epoch holds the key",
-						op, key, val, key, rs.step, rs.lo, rs.hi, r.cur(), r.minLo(), r.cur())
+					c.Violate("C30", "readable-after-remove", op, "%s(%s) returned %q after Remove(%s) succeeded at step %d (epochs %v were active then, extension epochs included; current epoch %d); no other epoch holds the key",
+						op, key, val, key, rs.step, rs.list(), r.cur())
 				}
 			}
 		}
@@ -591,6 +740,8 @@ func execC30(c *simkit.Ctx) bool {
 	}
 	r.prune = p.Knob("prune", 1) != 0
 	r.bloom = p.Knob("bloom", 0) > 0
+	r.cleanOn = p.Knob("clean", 1) != 0
+	r.lookupExt = p.Knob("lookup_ext", 0) != 0
 	start := uint32(p.Knob("start", 0))
 	if err := r.build(start); err != nil {
 		c.HarnessErr("constructing the storer: %v", err)
@@ -699,21 +850,42 @@ func execC30(c *simkit.Ctx) bool {
 			if key == "" {
 				break
 			}
-			for ep := r.minLo(); ep < r.cur(); ep++ {
-				if d := r.diskOfEpoch(ep); d != nil {
-					if _, ok := d.RawGet([]byte(key)); ok {
+			act := r.activeNow()
+			removes0 := map[uint32]int{}
+			for _, pth := range sortedKeys(r.files) {
+				f := r.files[pth]
+				removes0[f.epoch] += f.disk.Removes
+				if !act[f.epoch] || f.epoch == r.cur() {
+					continue
+				}
+				if _, ok := f.disk.RawGet([]byte(key)); ok {
+					if f.epoch < r.minLo() {
+						c.Probe("remove_of_key_held_by_extension_epoch")
+					} else {
 						c.Probe("remove_of_key_held_by_older_active_epoch")
-						break
 					}
 				}
 			}
 			err := r.st.Remove([]byte(key))
 			fired := disarm()
+			if r.mirrorOK && err == nil {
+				// cross-check of the mirror (probe only): the disks the storer touched are the mirrored active list
+				same := true
+				for _, pth := range sortedKeys(r.files) {
+					f := r.files[pth]
+					if (f.disk.Removes > removes0[f.epoch]) != act[f.epoch] {
+						same = false
+					}
+				}
+				if !same {
+					c.Probe("remove_touched_other_epochs_than_mirrored_active_list")
+				}
+			}
 			for _, m := range r.must {
 				delete(m, key)
 			}
 			if err == nil {
-				r.removed[key] = &removedState{step: i, lo: r.minLo(), hi: r.cur()}
+				r.removed[key] = &removedState{step: i, active: act}
 			} else {
 				delete(r.removed, key)
 				if !fired {
@@ -755,6 +927,15 @@ func execC30(c *simkit.Ctx) bool {
 			r.handler.EpochStartAction(hdr)
 			r.hdrEpoch = newE
 			r.epochChanges++
+			if st.Int(1, 0) != 0 {
+				r.mPrepare = int64(stuck)
+			}
+			if r.mirrorChange(newE, st.Int(0, 0) != 0, stuck) {
+				c.Probe("stuck_shard_extension_branch_taken")
+			}
+			if r.mirrorOK && len(r.mActive) > int(r.nap) {
+				c.Probe("active_list_longer_than_configured")
+			}
 			if r.closes > closes0 {
 				c.Probe("persister_closed_on_epoch_change")
 			}
